@@ -25,6 +25,8 @@ import (
 	"google.golang.org/protobuf/types/known/emptypb"
 )
 
+var curWorld *World // the world whose controller is running (one scenario at a time)
+
 type Scenario struct {
 	Name    string
 	Cfg     Config
@@ -844,6 +846,48 @@ func (w *World) handlerOp(op string, m map[string]string) {
 	}
 }
 
+// validMessage returns size bytes that unmarshal as a BytesValue (when size allows one)
+func validMessage(size int) []byte {
+	if size < 2 {
+		return make([]byte, size)
+	}
+	p := size - 2
+	for p > 0 && 1+varintLen(p)+p > size {
+		p--
+	}
+	b := []byte{0x0A}
+	n := p
+	for n >= 128 {
+		b = append(b, byte(n)|0x80)
+		n >>= 7
+	}
+	b = append(b, byte(n))
+	b = append(b, make([]byte, p)...)
+	for len(b)+2 <= size {
+		b = append(b, 0x0A, 0x00)
+	}
+	for len(b) < size {
+		b = append(b, 0) // cannot be made valid
+	}
+	return b
+}
+
+// rawData hands out the bytes of raw data frames so that consecutive frames of one message
+// form a valid protobuf message whenever their lengths add up to the announced size
+func (w *World) rawData(key string, env bool, size, n int) []byte {
+	if w.rawBuf == nil {
+		w.rawBuf = map[string][]byte{}
+	}
+	if env {
+		w.rawBuf[key] = validMessage(size)
+	}
+	buf := w.rawBuf[key]
+	out := make([]byte, n)
+	c := copy(out, buf)
+	w.rawBuf[key] = buf[c:]
+	return out
+}
+
 func parseRawC(m map[string]string) *tunnelpb.ClientToServer {
 	id, _ := strconv.ParseInt(m["id"], 10, 64)
 	f := &tunnelpb.ClientToServer{StreamId: id}
@@ -858,9 +902,9 @@ func parseRawC(m map[string]string) *tunnelpb.ClientToServer {
 			MethodName: un, ProtocolRevision: tunnelpb.ProtocolRevision(atoi(m["rev"])), InitialWindowSize: uint32(atoi(m["win"])),
 			RequestHeaders: toPB(decMD(m["md"]))}}
 	case "msg":
-		f.Frame = &tunnelpb.ClientToServer_RequestMessage{RequestMessage: &tunnelpb.MessageData{Size: uint32(atoi(m["size"])), Data: make([]byte, atoi(m["len"]))}}
+		f.Frame = &tunnelpb.ClientToServer_RequestMessage{RequestMessage: &tunnelpb.MessageData{Size: uint32(atoi(m["size"])), Data: curWorld.rawData("c"+m["id"], true, atoi(m["size"]), atoi(m["len"]))}}
 	case "more":
-		f.Frame = &tunnelpb.ClientToServer_MoreRequestData{MoreRequestData: make([]byte, atoi(m["len"]))}
+		f.Frame = &tunnelpb.ClientToServer_MoreRequestData{MoreRequestData: curWorld.rawData("c"+m["id"], false, 0, atoi(m["len"]))}
 	case "half":
 		f.Frame = &tunnelpb.ClientToServer_HalfClose{HalfClose: &emptypb.Empty{}}
 	case "cancel":
@@ -907,9 +951,9 @@ func parseRawS(m map[string]string) *tunnelpb.ServerToClient {
 	case "hdrs":
 		f.Frame = &tunnelpb.ServerToClient_ResponseHeaders{ResponseHeaders: toPB(decMD(m["md"]))}
 	case "msg":
-		f.Frame = &tunnelpb.ServerToClient_ResponseMessage{ResponseMessage: &tunnelpb.MessageData{Size: uint32(atoi(m["size"])), Data: make([]byte, atoi(m["len"]))}}
+		f.Frame = &tunnelpb.ServerToClient_ResponseMessage{ResponseMessage: &tunnelpb.MessageData{Size: uint32(atoi(m["size"])), Data: curWorld.rawData("s"+m["id"], true, atoi(m["size"]), atoi(m["len"]))}}
 	case "more":
-		f.Frame = &tunnelpb.ServerToClient_MoreResponseData{MoreResponseData: make([]byte, atoi(m["len"]))}
+		f.Frame = &tunnelpb.ServerToClient_MoreResponseData{MoreResponseData: curWorld.rawData("s"+m["id"], false, 0, atoi(m["len"]))}
 	case "close":
 		st := status.New(codes.Code(atoi(m["code"])), m["msg"])
 		f.Frame = &tunnelpb.ServerToClient_CloseStream{CloseStream: &tunnelpb.CloseStream{Status: st.Proto(), ResponseTrailers: toPB(decMD(m["md"]))}}
@@ -933,6 +977,7 @@ func (w *World) tunnel(m map[string]string) *tunnelState {
 
 // Do executes one controller action (without waiting for the system to settle).
 func (w *World) Do(line string) {
+	curWorld = w
 	op, m := kv(line)
 	defer func() {
 		if p := recover(); p != nil {
